@@ -354,6 +354,11 @@ func (r *Run) checkWindowTest(P string, w *ssa.Function, iFrom, iUntil, iAnchor 
 		ret, _, why2 := ev.walk(env)
 		n++
 		if ret == nil {
+			// the effective bound may be computed in the test itself (no bound function to name): evaluate the whole
+			// test over small concrete values instead
+			if r.checkWindowTestNumeric(P, w, from, until, anchor, why2) {
+				return
+			}
 			r.R.Unk(id, rule, core.FuncName(w), r.where(w), why, "cannot evaluate: "+why2)
 			return
 		}
@@ -507,4 +512,72 @@ func (r *Run) underFalseFlag(f *ssa.Function, ins ssa.Instruction, flag string, 
 		}
 	}
 	return true, ""
+}
+
+// checkWindowTestNumeric: the window test with the default bound computed inline (from + MaxOperationTimeDelta when
+// only from is given) is executed over all from, until ∈ 0..3, anchor ∈ 0..5, delta ∈ 1..2 and compared with the
+// statement; comparisons and one addition cannot tell larger values from these. Reports both window.nf and
+// window.bound@applier; returns false when the function cannot be evaluated this way either.
+func (r *Run) checkWindowTestNumeric(P string, w *ssa.Function, from, until, anchor *ssa.Parameter, whyNot string) bool {
+	ff := r.E.Facts(w, core.Ctx{})
+	otherParam := ""
+	ev := &scalarEval{fn: w, name: func(v ssa.Value) (string, bool) { return "", false }}
+	ev.num = func(v ssa.Value, env scalarEnv) (int64, bool) {
+		v = stripConv(v)
+		switch {
+		case v == ssa.Value(from):
+			return int64(env.rank["from"]), true
+		case v == ssa.Value(until):
+			return int64(env.rank["until"]), true
+		case v == ssa.Value(anchor):
+			return int64(env.rank["anchor"]), true
+		}
+		if u, ok := v.(*ssa.UnOp); ok && u.Op == token.MUL {
+			t := ff.TB.Of(u)
+			if t.Op == "field" && t.Root() != nil && t.Root().Op == "param" {
+				if t.Name != "MaxOperationTimeDelta" {
+					otherParam = t.Name
+				}
+				return int64(env.rank["delta"]), true
+			}
+		}
+		return 0, false
+	}
+	ei := w.Signature.Results().Len() - 1
+	good := true
+	var det []string
+	n := 0
+	for f := 0; f <= 3; f++ {
+		for u := 0; u <= 3; u++ {
+			for a := 0; a <= 5; a++ {
+				for d := 1; d <= 2; d++ {
+					env := scalarEnv{rank: map[string]int{"from": f, "until": u, "anchor": a, "delta": d}}
+					ret, _, why2 := ev.walk(env)
+					if ret == nil {
+						_ = why2
+						return false
+					}
+					n++
+					accept := isNilConstV(core.RetOp(ret, ei))
+					bound := u
+					if f != 0 && u == 0 {
+						bound = f + d
+					}
+					want := (f == 0 && u == 0) || (f <= a && bound >= a)
+					if accept != want && len(det) < 3 {
+						good = false
+						det = append(det, fmt.Sprintf("from=%d until=%d anchor=%d delta=%d: code %s, statement %s", f, u, a, d,
+							map[bool]string{true: "accepts", false: "rejects"}[accept], map[bool]string{true: "accepts", false: "rejects"}[want]))
+					}
+				}
+			}
+		}
+	}
+	why := "if a boundary is exclusive or a disjunct is missing, an operation anchored exactly at anchorFrom/anchorUntil is ignored, or one anchored outside takes effect"
+	r.R.Count("E3 abstract environments evaluated", n)
+	r.R.Check(good, P+".window.nf", "E4 table (numeric form, bound computed inline): reject iff ¬(from=0 ∧ until=0) ∧ (from > anchor ∨ bound < anchor) with bound = until, or from + delta iff from≠0 ∧ until=0, over from, until ∈ 0..3, anchor ∈ 0..5, delta ∈ 1..2",
+		core.FuncName(w), r.where(w), why, fmt.Sprintf("%d value combinations agree with the statement (name-based evaluation not possible: %s)", n, whyNot), strings.Join(det, "; "))
+	r.R.Check(good && otherParam == "", P+".window.bound@applier", "E3 role: the default window is bounded by MaxOperationTimeDelta (inline form, decided together with window.nf)", core.FuncName(w), r.where(w),
+		"if the default window is bounded by another parameter, operations take effect outside their signed anchoring window", "from + Protocol.MaxOperationTimeDelta", "the inline bound reads Protocol."+otherParam)
+	return true
 }
